@@ -42,6 +42,7 @@ func checkC02(c *Check) {
 	c.Assume("A2: (*os.File).Sync, os.Rename, os.Create, os.Remove, (*json.Encoder).Encode behave as documented (rename is atomic on POSIX)")
 
 	c02StoreNew(c)
+	c02Unbuffered(c)
 	c02UpdateMeta(c)
 	c02Recovery(c)
 	c02TryDelivery(c)
@@ -861,4 +862,82 @@ func literalFieldStrings(info *types.Info, table *ast.CompositeLit, name string)
 		}
 	}
 	return out
+}
+
+// R1c: "synced" is a statement about the bytes that had reached the file when Sync ran. A spool file written through
+// a buffering wrapper (bufio.Writer and the like) whose Flush runs after the Sync – deferred, typically – is synced
+// empty or cut at a buffer boundary: the function returns with a complete file in the page cache, every test and every
+// retry in the same process reads correct bytes, and after a power cut the acknowledged message has half a header.
+func c02Unbuffered(c *Check) {
+	c.Rule("R1c", "queue storage: a spool file that is synced is written directly, or every buffering writer wrapped around it is flushed (not by defer) on every path before that Sync", 2)
+	for _, fn := range []string{"storeNewMessage", "updateMetadataOnDisk"} {
+		r := c.need("R1c", queueRel, "Queue", fn)
+		if r == nil {
+			continue
+		}
+		info := r.Info
+		synced := map[types.Object][]Pt{}
+		for _, pt := range r.Calls(isSync) {
+			if o := recvObj(info, r.CallAt(pt, isSync)); o != nil {
+				synced[o] = append(synced[o], pt)
+			}
+		}
+		msg := ""
+		nwrap := 0
+		for _, pt := range r.F.Points() {
+			as, ok := pt.Node().(*ast.AssignStmt)
+			if !ok || len(as.Lhs) != len(as.Rhs) {
+				continue
+			}
+			for i, rhs := range as.Rhs {
+				call, ok := ast.Unparen(rhs).(*ast.CallExpr)
+				if !ok {
+					continue
+				}
+				var file types.Object
+				for _, a := range call.Args {
+					if o := objOf(info, a); o != nil && len(synced[o]) > 0 {
+						file = o
+					}
+				}
+				w := objOf(info, as.Lhs[i])
+				if file == nil || w == nil {
+					continue
+				}
+				// does the result buffer? (it has a Flush method)
+				ms := types.NewMethodSet(w.Type())
+				hasFlush := false
+				for j := 0; j < ms.Len(); j++ {
+					if ms.At(j).Obj().Name() == "Flush" {
+						hasFlush = true
+					}
+				}
+				if !hasFlush {
+					continue
+				}
+				nwrap++
+				flushed := func(q Pt) bool {
+					if _, isDefer := q.Node().(*ast.DeferStmt); isDefer {
+						return false
+					}
+					for _, cc := range callsAt(q.Node()) {
+						if methodName(cc) == "Flush" && recvObj(info, cc) == w {
+							return true
+						}
+					}
+					return false
+				}
+				if ok, wit := r.MustPass([]Pt{pt}, false, isPt(synced[file]), flushed); !ok {
+					msg = "line " + itoa(r.Line(pt)) + ": the file " + file.Name() + " is written through the buffering writer " + w.Name() + ", which is not flushed on every path before " + file.Name() + ".Sync(): the Sync covers a file that is empty or cut at a buffer boundary, the rest reaches the disk whenever the kernel likes (after a power cut the acknowledged message has a truncated header / body / record): " + wit
+				}
+			}
+		}
+		_ = nwrap
+		c.Hold("R1c", fn+":unbuffered", r.FI.Decl.Pos(), msg == "" && len(synced) > 0, func() string {
+			if len(synced) == 0 {
+				return "undecided: no synced file found"
+			}
+			return msg
+		}())
+	}
 }
